@@ -172,7 +172,9 @@ Record wf_doc (D : doc) : Prop := {
   wd_size : i32 (d_w D) /\ i32 (d_h D);                                          (* Size is a pair of i32 *)
   wd_modes : d_btype D < BufferType_count /\ d_ice D < IceMode_count /\ d_pmode D < PaletteMode_count /\ d_fmode D < FontMode_count;
   wd_keys : NoDup (map fst (d_fonts D));                                         (* a HashMap has each key once *)
-  wd_slots : Forall (fun kf => fst kf < 18446744073709551616 /\ N.of_nat (List.length (font_name (snd kf))) < 4294967296) (d_fonts D);
+  wd_slots : Forall (fun kf => fst kf < 18446744073709551616 /\ N.of_nat (List.length (font_name (snd kf))) < 4294967296
+                              /\ Unicode.utf8_valid (font_name (snd kf)) = true)   (* BitFont::name is a String *)
+                    (d_fonts D);
   wd_layers : Forall (fun L => ty_layer L /\ wf_layer L) (d_layers D) }.
 
 (* what a reloaded layer has in common with the saved one *)
@@ -229,11 +231,11 @@ Proof.
 Qed.
 
 Lemma step_font D k f b : k < 18446744073709551616 -> N.of_nat (List.length (font_name f)) < 4294967296 ->
-  font_psf2 f = Ok b ->
+  Unicode.utf8_valid (font_name f) = true -> font_psf2 f = Ok b ->
   step D (kw_font k) (le 4 (N.of_nat (List.length (font_name f))) ++ font_name f ++ b)
   = Ok (mkDoc (d_w D) (d_h D) (d_btype D) (d_ice D) (d_pmode D) (d_fmode D) (d_sauce D) (d_pal D) (set_font k (font_norm f) (d_fonts D)) (d_layers D), false).
 Proof.
-  intros Hk Hn Hb. unfold IcyDoc.step, kw_font.
+  intros Hk Hn Hu Hb. unfold IcyDoc.step, kw_font.
   replace (("FONT_" ++ dec k =? "END")%string) with false by reflexivity.
   replace (("FONT_" ++ dec k =? "ICED")%string) with false by reflexivity.
   replace (("FONT_" ++ dec k =? "PALETTE")%string) with false by reflexivity.
@@ -241,7 +243,7 @@ Proof.
   rewrite strip_prefix_app, (parse_dec k Hk).
   rewrite take4_le. cbn [bind fst snd].
   rewrite unle_le by (change (256 ^ N.of_nat 4) with 4294967296; exact Hn).
-  rewrite take_app. cbn [bind fst snd]. rewrite (font_codec _ _ Hb). reflexivity.
+  rewrite take_app. cbn [bind fst snd]. rewrite (lossy_valid _ Hu), (font_codec _ _ Hb). reflexivity.
 Qed.
 
 Lemma step_layer D i bs L' : decode bs = Ok L' ->
@@ -262,7 +264,8 @@ Local Opaque le.
 (* the FONT_k chunks, in whatever order font_iter produced them *)
 Lemma load_fonts : forall fs cs rest D,
   font_chunks fs = Ok cs ->
-  Forall (fun kf => fst kf < 18446744073709551616 /\ N.of_nat (List.length (font_name (snd kf))) < 4294967296) fs ->
+  Forall (fun kf => fst kf < 18446744073709551616 /\ N.of_nat (List.length (font_name (snd kf))) < 4294967296
+                    /\ Unicode.utf8_valid (font_name (snd kf)) = true) fs ->
   load_chunks (cs ++ rest) D
   = load_chunks rest (mkDoc (d_w D) (d_h D) (d_btype D) (d_ice D) (d_pmode D) (d_fmode D) (d_sauce D) (d_pal D)
                             (fold_left (fun acc kf => set_font (fst kf) (font_norm (snd kf)) acc) fs (d_fonts D)) (d_layers D)).
@@ -272,8 +275,8 @@ Proof.
   - cbn [IcyDoc.font_chunks] in H. unfold font_payload in H.
     destruct (font_psf2 f) as [b| |] eqn:Eb; try discriminate. cbv beta iota delta [bind] in H.
     destruct (font_chunks fs) as [r| |] eqn:Er; try discriminate. cbv beta iota delta [bind] in H. injection H as <-.
-    inversion HF as [|? ? [Hk Hn] HF']; subst. cbn [fst snd] in Hk, Hn.
-    rewrite <- app_comm_cons. cbn [IcyDoc.load_chunks]. rewrite (step_font D k f b Hk Hn Eb). cbn [bind fst snd].
+    inversion HF as [|? ? (Hk & Hn & Hu) HF']; subst. cbn [fst snd] in Hk, Hn, Hu.
+    rewrite <- app_comm_cons. cbn [IcyDoc.load_chunks]. rewrite (step_font D k f b Hk Hn Hu Eb). cbn [bind fst snd].
     rewrite (IH r rest _ eq_refl HF'). reflexivity.
 Qed.
 
